@@ -609,3 +609,70 @@ def emptiness_test(c, pol: bool):
     if c[0] in ("ref", "attr", "param", "item", "call", "phi", "loopout"):
         return c, not pol
     return None
+
+
+
+class NotConstant(Exception):
+    pass
+
+
+def const_eval(t):
+    """Python value of a term built from constants with comparisons, truth tests, and/or/not and conditionals."""
+    if not isinstance(t, tuple) or not t:
+        raise NotConstant
+    k = t[0]
+    if k == "const":
+        return t[1]
+    if k == "not":
+        return not const_eval(t[1])
+    if k == "bool":
+        vals = t[2]
+        r = None
+        for x in vals:
+            r = const_eval(x)
+            if bool(r) == (t[1] == "or"):
+                return r
+        return r
+    if k == "cond":
+        return const_eval(t[2]) if const_eval(t[1]) else const_eval(t[3])
+    if k == "cmp":
+        a, b_ = const_eval(t[2]), const_eval(t[3])
+        try:
+            if t[1] == "Eq":
+                return a == b_
+            if t[1] == "Is":
+                return a is b_ or (a is None and b_ is None)
+            if t[1] == "Lt":
+                return a < b_
+            if t[1] == "In":
+                return a in b_
+        except TypeError:
+            raise NotConstant
+    if k == "tuple":
+        return tuple(const_eval(x) for x in t[1])
+    if k == "call" and t[1] == "len" and len(t[2]) == 1:
+        return len(const_eval(t[2][0]))
+    if k == "call" and t[1] == "bool" and len(t[2]) == 1:
+        return bool(const_eval(t[2][0]))
+    raise NotConstant
+
+
+def guard_states(guards, var, domain):
+    """The values v of ``domain`` for which every guard that mentions ``var`` holds when var == v; None when some such guard
+    cannot be decided from the value alone."""
+    rel = [(c, p) for c, p in guards if contains(c, lambda x: x == var)]
+    if not rel:
+        return None
+    out = []
+    for v in domain:
+        ok = True
+        for c, p in rel:
+            try:
+                val = const_eval(subst(c, {var: const(v)}))
+            except NotConstant:
+                return None
+            if bool(val) != p:
+                ok = False
+        if ok:
+            out.append(v)
+    return out
